@@ -65,6 +65,9 @@ func runC01(c *Ctx) {
 	for _, f := range fams {
 		c.Bound(f.name, fmt.Sprintf("all workloads of length<=%d over %v x phases %q; faults %+v per client->broker packet; budget %s; session kept %v", f.n, f.kinds, string(f.phases), f.faults, f.bound, f.keep))
 		for _, reqs := range rcWorkloads(f.n, f.kinds, f.phases) {
+			if !c.Thorough() && !rcLateOnlyLast(reqs) {
+				continue
+			}
 			for _, keep := range f.keep {
 				reqs, keep, f := reqs, keep, f
 				var run *rcRun
